@@ -68,7 +68,26 @@ ExpectedRouting(arrivals) ==
   LET ds == Distinct(arrivals, <<>>) IN [i \in 1..Len(arrivals) |-> Index(ds, arrivals[i])]
 SetOf(seq) == {seq[i] : i \in 1..Len(seq)}
 
+\* concurrent scenario (ev = "RTC"): several connections, each with its own sink, route records of their own tuples at the
+\* same time.  e.conns[c] = tuples connection c sends (each e.rounds times); e.pipelines = <<id, tag, tuples received
+\* (distinct), records received>>.  Whatever the interleaving: one pipeline per tuple, named and tagged by that tuple, and
+\* it receives exactly the records of that tuple - routing depends on the record's own key fields, not on what another
+\* connection is routing at that moment.
+RECURSIVE CountIn(_, _)
+CountIn(seq, x) == IF seq = <<>> THEN 0 ELSE (IF Head(seq) = x THEN 1 ELSE 0) + CountIn(Tail(seq), x)
+RECURSIVE SumSent(_, _)
+SumSent(conns, t) == IF conns = <<>> THEN 0 ELSE CountIn(Head(conns), t) + SumSent(Tail(conns), t)
+CheckConcurrent(e) ==
+  LET all == UNION {SetOf(e.conns[c]) : c \in 1..Len(e.conns)} IN
+  /\ e.res # "panic"
+  /\ {<<p[1], p[2]>> : p \in SetOf(e.pipelines)} = {<<PipelineId(t), Tag(e.template, t)>> : t \in all}
+  /\ Len(e.pipelines) = Cardinality(all)
+  /\ \A p \in SetOf(e.pipelines) :
+        /\ SetOf(p[3]) = {t \in all : PipelineId(t) = p[1]}
+        /\ p[4] = e.rounds * SumSent(e.conns, KeysOfId(p[1]))
+
 Check(e) ==
+  IF e.ev = "RTC" THEN CheckConcurrent(e) ELSE
   /\ e.res # "panic"
   \* first life: pipelines, routing, directories
   /\ e.p1.pipelines = ExpectedPipelines(e.template, e.arrivals1)
